@@ -267,6 +267,17 @@ def gen_system(rng):
     return rows, shape
 
 
+def gen_small(rng):
+    """small systems (1-3 variables, 2-4 rows, entries in -2..2), often contradictory pairs"""
+    nv = rng.randint(1, 3)
+    rows = [rand_row(rng, nv, 2, 0.3) for _ in range(rng.randint(1, 3))]
+    if rng.random() < 0.7:
+        r = rng.choice(rows)
+        rows.append(neg_row(r, rng.choice([-1, -1, -2, 0])))
+    rng.shuffle(rows)
+    return rows, "small"
+
+
 def gen_exhaustive(nv, max_rows, K, cK):
     """Every multiset of <= max_rows rows over nv variables, coefficients in -K..K, constants in -cK..cK."""
     rows = [list(r) for r in itertools.product(*([range(-K, K + 1)] * nv + [range(-cK, cK + 1)]))]
@@ -942,6 +953,82 @@ def check_omega_hol(ctx, systems, label):
             ctx.count("omegahol:%s:noconcl" % label)
 
 
+def check_simplex_hol(ctx, systems, label):
+    """SimplexHOLWrapper.handle_assertion(): an 'unsatisfiable' answer is a proof term of
+    `hyps |- false`; it must check and its hypotheses must be (the HOL form of) given constraints."""
+    from kernel import theory, report as kreport
+    from kernel.proofterm import ProofTerm
+    from kernel.term import false
+    from data import real
+    from logic import context
+    from prover import simplex
+    context.set_context('real')          # the OmegaHOL stream switched the global theory to 'int'
+    rng = ctx.rng("simplexhol-enc-" + label)
+    for rows, shape in systems:
+        rows = [r for r in rows if any(r[:-1])]          # the wrapper cannot express constant rows
+        if not rows:
+            continue
+        nv = len(rows[0]) - 1
+        enc = [rng.random() < 0.5 for _ in rows]
+        key = rows_key(rows) + "/" + "".join("g" if e else "l" for e in enc)
+        ctx.case(("simplexhol", key), nontrivial=len(rows) >= 2)
+        rp = {"kind": "simplexhol", "rows": rows, "enc": enc}
+        try:
+            with time_limit(120):
+                w = simplex.SimplexHOLWrapper()
+                w.add_ineqs(build_ineqs(simplex, rows, enc))
+                res = w.handle_assertion()
+        except Timeout:
+            ctx.count("simplexhol:%s:timeout" % label)
+            continue
+        except Exception as e:  # noqa
+            ctx.count("simplexhol:%s:raise:%s" % (label, type(e).__name__))
+            continue
+        if not isinstance(res, ProofTerm):
+            ctx.count("simplexhol:%s:sat" % label)
+            xs = [Fraction(res.get("x%d" % i, 0)) for i in range(nv)]
+            viol = [r for r in rows if sum(c * x for c, x in zip(r[:-1], xs)) + r[-1] < 0]
+            if viol:
+                report(ctx, "simplexhol:bad-witness", key, "SimplexHOLWrapper on %s (encoding %s) returns the assignment %s which violates row %s"
+                       % (rows, key.split("/")[1], {k: str(v) for k, v in res.items()}, viol[0]), rp)
+            continue
+        ctx.count("simplexhol:%s:proof" % label)
+        try:
+            with time_limit(300):
+                rpt = kreport.ProofReport()
+                th = theory.check_proof(res.export(), rpt)
+        except Timeout:
+            ctx.count("simplexhol:check-timeout")
+            continue
+        except Exception as e:  # noqa
+            report(ctx, "simplexhol:proof-rejected", key, "proof term of SimplexHOLWrapper for %s is rejected by check_proof: %s %s" % (rows, type(e).__name__, str(e)[:200]), rp)
+            continue
+        if len(rpt.gaps) > 0 or th.prop != false:
+            report(ctx, "simplexhol:not-false", key, "SimplexHOLWrapper proof for %s concludes %s (gaps: %d)" % (rows, th.prop, len(rpt.gaps)), rp)
+        foreign = []
+        for h in th.hyps:
+            try:
+                row = [Fraction(0)] * (nv + 1)
+                for t in simplex.dest_plus(h.arg1):
+                    c, x = (real.real_eval(t.arg1), t.arg) if t.is_times() else (1, t)
+                    row[int(x.name[1:])] += Fraction(c)
+                b = Fraction(real.real_eval(h.arg))
+                if h.is_greater_eq():
+                    row[-1] = -b
+                elif h.is_less_eq():
+                    row = [-c for c in row[:-1]] + [b]
+                else:
+                    raise ValueError("not an inequality")
+                if [int(c) if c.denominator == 1 else c for c in row] not in rows:
+                    foreign.append(str(h))
+            except Exception:  # noqa
+                foreign.append(str(h))
+        if foreign:
+            report(ctx, "simplexhol:foreign-hypothesis", key, "SimplexHOLWrapper proof for %s uses hypotheses that are not given constraints: %s" % (rows, foreign), rp)
+        if z3_sat(rows, integer=False) is True:
+            report(ctx, "simplexhol:wrong-unsat", key, "SimplexHOLWrapper proves false from %s, which Z3 (LRA) finds satisfiable" % rows, rp)
+
+
 # ------------------------------------------------------------------ main
 def run(ctx):
     ctx.coverage["rule"] = (
@@ -959,6 +1046,16 @@ def run(ctx):
     proofs_ok = ctx.lean_props(["Holpy.C16.Props"], exes=[EXE])
     if ctx.tier == "thorough" and proofs_ok:
         ctx.lean_check_modules(["Holpy.C16.Props"])
+    ctx.coverage["trusted_base"] += [
+        "translator of omega.combine_real_factoid / combine_dark_factoid (Python AST -> Gen.lean, harness/props/c16.py)",
+        "correspondence harness (generators, derivation/witness serialisation, rows -> GreaterEq/LessEq encoding, explanation -> Farkas multipliers)",
+        "Z3 (LIA/LRA) and the box -6..6 as supporting oracles where no certificate exists; kernel.theory.check_proof for proof terms",
+        "exact integer division in the model in place of Python's float division (agree below 2^53); CPython hash(-1)=hash(-2) as the only bucket collision"]
+    ctx.assumptions += [
+        "omega_contr_sound is about the model of solve_matrix with fix C16-1; the SAT side (omega_sat_sound) is not proved: "
+        "witnesses of the real code are judged per run by the verified checkWitness",
+        "the simplex algorithm is not modelled; its answers are judged per run by verified certificate checkers, Z3 and brute force",
+        "exceptions / NOCONCL / 'gave up' are no answers and are only counted; termination is not part of C16"]
     from prover import omega
     corpus = load_corpus(ctx)
     check_omega(ctx, omega, [(r, "corpus") for r in corpus], "corpus")
@@ -1003,6 +1100,11 @@ def run(ctx):
     sys5 = [gen_system(rng) for _ in range(ctx.scale(60, 400))]
     check_omega_hol(ctx, sys5, "random")
     ctx.log("OmegaHOL stream done (%d)" % len(sys5))
+    rng = ctx.rng("simplexhol")
+    # the proof-producing wrapper fails (by its own exceptions) on most larger systems; small ones reach the proof code
+    sys6 = [gen_small(rng) for _ in range(ctx.scale(150, 1500))] + [gen_system(rng) for _ in range(ctx.scale(40, 400))]
+    check_simplex_hol(ctx, sys6, "random")
+    ctx.log("SimplexHOLWrapper stream done (%d)" % len(sys6))
 
 
 def load_corpus(ctx):
@@ -1031,6 +1133,9 @@ def replay(ctx, rp):
                 check_strict(ctx, simplex_strict, [(rows, "replay")], "replay%d" % _)
     elif r.get("kind") == "omegahol":
         check_omega_hol(ctx, [(rows, "replay")], "replay")
+    elif r.get("kind") == "simplexhol":
+        for _ in range(1 if len(rows) > 6 else 8):
+            check_simplex_hol(ctx, [(rows, "replay")], "replay%d" % _)
     for v in ctx.violations:
         print("still fails:", v[1])
     return bool(ctx.violations)
@@ -1041,7 +1146,8 @@ MANIFEST = {
             "(an accepted integer / rational assignment satisfies every row), checkFarkas_sound (accepted non-negative multipliers prove "
             "that no rational solution exists), checkDeriv_sound (an accepted Omega derivation - assumptions, real-shadow combination as "
             "translated from omega.py, gcd division with the constant rounded down, sum of two rows - proves that no integer solution "
-            "exists); (b) omega_contr_sound / omega_contr_no_solution about an executable model of solve_matrix/solve (all modes, redundant-"
+            "exists), dark_shadow_sound (the dark-shadow lemma for the combine_dark_factoid translated from omega.py: a satisfied dark "
+            "factoid guarantees an integer value for the eliminated variable); (b) omega_contr_sound / omega_contr_no_solution about an executable model of solve_matrix/solve (all modes, redundant-"
             "variable elimination, exact/dark elimination, one-variable analysis, back-substitution), for every matrix of rows of one width "
             "and every fuel: a Contr answer carries a derivation the checker accepts, so the system has no integer solution. The model is "
             "tied to prover/omega.py by regenerating combine_real_factoid/combine_dark_factoid from the source on every run and by "
@@ -1050,7 +1156,7 @@ MANIFEST = {
             "verified checkWitness and an independent evaluation. The simplex algorithm (pivoting, branch and bound, strict variant) is not "
             "modelled: its witnesses go through checkWitness(Q), its 'unsatisfiable' explanations are turned into Farkas multipliers and "
             "go through checkFarkas, branch-and-bound / strict verdicts are compared with Z3 and brute force. OmegaHOL proof terms are "
-            "checked by theory.check_proof (conclusion false, hypotheses among the given constraints).",
+            "and SimplexHOLWrapper proof terms are checked by theory.check_proof (conclusion false, hypotheses among the given constraints).",
     "note": "Trusted: Lean kernel, propext/Classical.choice/Quot.sound; the Python-AST translator of the two combine functions; the harness "
             "generators and encoders (rows -> GreaterEq/LessEq, explanation -> multipliers); Z3 and the box -6..6 as supporting oracles for "
             "verdicts without certificate (branch and bound 'no integer solution', strict simplex 'unsatisfiable'); float divisions of "
@@ -1068,4 +1174,7 @@ FINDINGS = [
      "what": "Simplex.add_ineq left the slack variable of a non-unit single-variable constraint without a value when the variable was "
              "already known (KeyError in check); branch_and_bound swallows the error and reports 'no integer solution' for "
              "-3x-3y+4>=0, -2y+3>=0"},
+    {"status": "fixed", "key": "simplexhol:bad-witness:[[2,0,-1],[0,2,-2],[-2,0,-1]]/gll", "commit": "fixes/C16-3.patch",
+     "what": "SimplexHOLWrapper.add_ineq named the slack variable after Simplex.index-1 although Simplex re-uses the slack of an equal "
+             "linear form: 2*x0>=1, 2*x1>=2, 2*x0<=-1 was answered satisfiable with x0=1/2 (bound asserted on the wrong variable)"},
 ]
